@@ -69,7 +69,7 @@ def run(ctx):
         return
     have = M.driver_functions(drv)
     secret = sorted(set(c["fn"] for c in cases if c["secret"] and c["fn"] in have))
-    fns = M.pick_functions(ctx, secret)
+    fns = sorted(secret) if not os.environ.get("VERIF_FUNCS") else M.pick_functions(ctx, secret)     # every secret-processing function, in the quick tier too
     if "beltHash" in have and "beltHash" not in fns:
         fns = fns + ["beltHash"]                 # one non-secret function as the control of the self-test
     cases_by_fn = collections.defaultdict(list)
